@@ -138,6 +138,7 @@ def model(pattern):
 
 
 def install(ex):
+    from . import models_extra       # noqa: registers the additional models (later registrations take precedence)
     for pat, fn in _REG:
         ex.model(pat, fn)
 
@@ -660,7 +661,22 @@ def _int_try_from(ctx, a):
     ws, ss = X.INT_TYPES[src]
     if wd >= ws and sd == ss:
         return ok(ctx.ex.cast(a, src, dst, 'IntToInt', ctx.st))
-    raise Unsupported('narrowing TryFrom %s' % ctx.callee)
+    # general case: Ok iff the value lies in the destination's range (compared in the source type)
+    ex = ctx.ex
+    dmax = (1 << (wd - 1)) - 1 if sd else (1 << wd) - 1
+    dmin = -(1 << (wd - 1)) if sd else 0
+    smax = (1 << (ws - 1)) - 1 if ss else (1 << ws) - 1
+    smin = -(1 << (ws - 1)) if ss else 0
+    conds = []
+    if dmax < smax:
+        conds.append(ex.binop('Le', a, CI(dmax & ((1 << ws) - 1), ws), src))
+    if dmin > smin:
+        conds.append(ex.binop('Ge', a, CI(dmin & ((1 << ws) - 1), ws), src))
+    fits = b_and(*conds) if conds else True
+    val = ex.cast(a, src, dst, 'IntToInt', ctx.st)
+    if fits is True:
+        return ok(val)
+    return Enum(ite(fits, CI(0, 64), CI(1, 64)), {0: (val,), 1: (Opaque('TryFromIntError'),)})
 
 
 @model(r'^<(\w+) as std::default::Default>::default$')
